@@ -5,13 +5,34 @@ import json, os, subprocess
 HERE = os.path.dirname(os.path.dirname(os.path.abspath(__file__)))
 
 # id -> (technique, level text, level note, design ref)
+LAYOUT_NOTE = "Trusts the verif-hooks shape hook and that dispatch_seq visits stages/groups/systems in storage order (identification run); explores a finite generated sample, never proves absence."
+PBT = "property-based testing (proptest choice streams -> generated registration sequences -> real builder/dispatcher -> explicit oracle; proptest + structural shrinking; JSON replay)"
+
 CLAIMED = {
-    "C10": (
-        "property-based testing: generated registration sequences -> real builder -> validity predicate over the executed layout (shape hook + identification run)",
-        "Generated-input search (proptest-driven choice streams, 16 lanes) over registration sequences; the oracle is the statement's own validity predicate evaluated on the layout that is really executed. Found and fixed two defects (duplicate dependency names, dependencies in front of a barrier).",
-        "Trusts the verif-hooks shape hook and that dispatch_seq visits stages/groups/systems in storage order; explores a finite sample, never proves absence.",
-        "DESIGN.md 4/C10",
-    ),
+    "C01": (PBT + "; oracle = reference conflict relation over the executed layout",
+        "Generated-input search over registration sequences; oracle A checks on the really executed layout that no two conflicting systems sit in different groups of one stage.",
+        LAYOUT_NOTE, "DESIGN.md 4/C01"),
+    "C02": (PBT + "; oracle = every declared dependency edge is ordered in the executed layout",
+        "Generated-input search over dependency-heavy registration sequences; oracle A: every declared edge A -> B has A strictly before B in the executed layout.",
+        LAYOUT_NOTE, "DESIGN.md 4/C02"),
+    "C03": (PBT + "; oracle = barrier segments occupy strictly increasing stage ranges",
+        "Generated-input search over sequences with barriers at arbitrary positions; oracle A on the executed layout.",
+        LAYOUT_NOTE, "DESIGN.md 4/C03"),
+    "C04": (PBT + "; oracle = registered == executed (shape hook + identification run)",
+        "Generated-input search incl. the funnel class (groups filled to capacity); every registered system appears exactly once in the executed lists.",
+        LAYOUT_NOTE, "DESIGN.md 4/C04"),
+    "C10": (PBT + "; oracle = the statement's validity predicate over the executed layout",
+        "Generated-input search over registration sequences; the oracle is the statement's own validity predicate evaluated on the layout that is really executed. Found and fixed two defects (duplicate dependency names, dependencies in front of a barrier).",
+        LAYOUT_NOTE, "DESIGN.md 4/C10"),
+    "C18": (PBT + "; generated ill-formed call planted at a generated position; oracle = panic exactly there, quoting the name, nowhere else",
+        "Generated registration sequences up to 400 calls, funnel class, nested builders; every call under catch_unwind.",
+        "Nothing is claimed about a builder after it panicked; explores a finite sample.", "DESIGN.md 4/C18"),
+    "C19": (PBT + "; metamorphic relation: renaming / relabelling / list permutation leave the executed layout unchanged",
+        "Metamorphic generated-input search: P, P built twice, and transformed P' must give identical canonical layouts.",
+        LAYOUT_NOTE, "DESIGN.md 4/C19"),
+    "C20": (PBT + "; oracle = printed text parses and equals the executed layout position by position",
+        "Generated-input search over builders with unnamed systems, odd names, batches, empty builders. Found and fixed one defect (unnamed systems made Debug panic).",
+        LAYOUT_NOTE, "DESIGN.md 4/C20"),
 }
 
 NOT_YET = "check not built yet in this session (planned, see DESIGN.md section 4)"
